@@ -604,11 +604,24 @@ func putAliasToIndexInMem(aliasName string, indexName string, orgid int64) {
 
 func FlushAliasMapToFile() error {
 	log.Warnf("FlushAliasMapToFile: Flushing alias map to file on exit")
+	// aliasToIndexNames maps alias -> index names, an alias file holds the aliases of one index:
+	// add every alias that the file of its index does not hold yet
 	for orgid := range aliasToIndexNames {
 		for alias, indexNames := range aliasToIndexNames[orgid] {
-			err := writeAliasFile(&alias, indexNames, orgid)
-			if err != nil {
-				log.Errorf("FlushAliasMapToFile: Failed to save alias map! alias=%v, Error= %+v", alias, err)
+			for indexName := range indexNames {
+				currentAliases, err := GetAliases(indexName, orgid)
+				if err != nil {
+					log.Errorf("FlushAliasMapToFile: Failed to read aliases of index=%v, alias=%v, Error= %+v", indexName, alias, err)
+					continue
+				}
+				if currentAliases[alias] {
+					continue
+				}
+				currentAliases[alias] = true
+				err = writeAliasFile(&indexName, currentAliases, orgid)
+				if err != nil {
+					log.Errorf("FlushAliasMapToFile: Failed to save alias map! alias=%v, Error= %+v", alias, err)
+				}
 			}
 		}
 	}
